@@ -280,6 +280,11 @@ func c19a(c *Ctx) {
 		ok := false
 		for _, r := range returnsOf(rs) {
 			var leaves [4][]ssa.Value
+			if len(r.Results) < 4 {
+				ok = false
+				c.Unk("readString/results", c.W.Pos(r.Pos()), fmt.Sprintf("readString returns %d values; the rule reads (text, end line, end byte, end char)", len(r.Results)))
+				continue
+			}
 			for i := 1; i <= 3; i++ {
 				phiLeaves(r.Results[i], map[ssa.Value]bool{}, &leaves[i])
 			}
